@@ -11,6 +11,7 @@ import (
 	"flag"
 	"fmt"
 	"hash/fnv"
+	"math"
 	"os"
 	"path/filepath"
 	"runtime"
@@ -295,11 +296,12 @@ func Check[C any](t *testing.T, p Prop[C]) {
 	if Thorough() {
 		n = p.Thor * ThorScale
 	}
-	if p.OneShard && Shards > 1 {
+	if p.OneShard && Thorough() {
+		// cases that take many minutes each: exactly p.Thor of them, in shard 0, whatever the scale
 		if Shard != 0 {
 			return
 		}
-		n *= Shards
+		n = int(math.Ceil(float64(p.Thor*Shards) / Scale))
 	}
 	n = int(float64(n)*Scale) / Shards
 	if n < 1 {
